@@ -991,7 +991,12 @@ def _create_socks_endpoint(reactor, control_protocol, socks_config=None):
         # the __*Port things...
         if socks_ports == ['DEFAULT']:
             default = yield control_protocol.get_conf_single('__SocksPort')
-            socks_ports = [default]
+            if default == 'DEFAULT':
+                # nothing configured at all: Tor listens on its
+                # built-in default
+                socks_ports = ['9050']
+            else:
+                socks_ports = [default]
     else:
         # return from get_conf was an empty dict; we want a list
         socks_ports = []
